@@ -1,4 +1,5 @@
 import BufrModel.Template
+import BufrSpec.Ops
 import Std.Data.HashMap
 /- driver ops for tables-as-loaded, templates and data subsets (C09, C10 and the codec units) -/
 open Bufr
@@ -45,6 +46,15 @@ def parseDDump (s : String) : Option (List EntryD) :=
 def fmtNode (n : Node) : String :=
   let v := if n.hasVal && n.flags.class31 then toString n.ival else "-"
   s!"{n.desc}/{n.flags.toNat}/{n.enc.type.code}/{n.enc.nbits}/{n.enc.scale}/{n.enc.ref}/{n.enc.afNbits}/{if n.hasVal then 1 else 0}/{v}"
+
+def kindCode : Spec.Kind → Nat
+  | .num => 4 | .ccitt => 5 | .code => 6 | .flag => 7 | .newRef => 8 | .ieee => 9 | .op => 2 | .none => 0
+
+def fmtLayout (l : Spec.Layout) : String :=
+  match l.kind with
+  | .op | .none => s!"{l.desc}:{kindCode l.kind}"
+  | .ccitt | .code | .flag | .ieee | .newRef => s!"{l.desc}:{kindCode l.kind}:{l.width}:{l.af}"
+  | .num => s!"{l.desc}:{kindCode l.kind}:{l.width}:{l.scale}:{l.ref}:{l.af}"
 
 def fmtNodes (ns : List Node) : String :=
   if ns.isEmpty then "-" else " ".intercalate (ns.map fmtNode)
@@ -131,6 +141,18 @@ def stepTemplate (st : TmplSt) (toks : List String) : Option (TmplSt × String) 
       | none => some (st, "-1")
     | some _, none => some (st, "-1")
     | _, _ => some (st, "bad-op")
+  | ["ss.speclayout", p] =>
+    -- the *regulation* layout (BufrSpec.Ops) of the data-bearing items of the subset
+    match p.toNat?, st.tmpl with
+    | some p, some t =>
+      match st.subsets[p]? with
+      | some s =>
+        let its := (s.nodes.filter fun n => !n.flags.skipped && (Desc.f n.desc = 0 || Desc.f n.desc = 2)).map (·.desc)
+        if Spec.inScope T t.edition {} its then
+          some (st, "L " ++ " ".intercalate ((Spec.layoutAll T {} its).map fmtLayout))
+        else some (st, "outside")
+      | none => some (st, "none")
+    | _, _ => some (st, "none")
   | ["ds.invalid"] => some (st, if st.invalid then "1" else "0")
   | _ => none
 
